@@ -108,10 +108,11 @@ func runModel(modelBin string, reqs []string) ([]string, error) {
 
 // hangTimeout: a guarded item is killed and reported when the worker has burnt this much CPU
 // time on it without finishing (a busy loop), or when it shows no progress for blockedTimeout of
-// wall time (a blocked call).  CPU time, not wall time, so that a loaded machine (twenty checks
+// wall time WHILE consuming next to no CPU (a blocked call), or after absoluteTimeout.  CPU time, not wall time, so that a loaded machine (twenty checks
 // running side by side) cannot turn a slow but finite evaluation into a false alarm.
-var hangTimeout = 45 * time.Second
+var hangTimeout = 5 * time.Minute // CPU time of the whole worker process (collector threads included)
 var blockedTimeout = 6 * time.Minute
+var absoluteTimeout = 40 * time.Minute
 
 // procCPU: user+system time consumed so far by process pid (Linux /proc), ok=false if unknown
 func procCPU(pid int) (time.Duration, bool) {
@@ -183,7 +184,7 @@ var guardLastSkippedHung bool
 func crashCase(human string) Case {
 	what := "the process was killed by a fatal fault (e.g. a mis-typed memory access, stack exhaustion) while this input was evaluated"
 	if guardLastSkippedHung {
-		what = fmt.Sprintf("no answer within %v of CPU time (or %v blocked) while this input was evaluated (the worker process was killed)", hangTimeout, blockedTimeout)
+		what = fmt.Sprintf("no answer within %v of CPU time (or %v without progress and without CPU use) while this input was evaluated (the worker process was killed)", hangTimeout, blockedTimeout)
 	}
 	return Case{Human: human, Want: "process-crash", Tags: []string{"process-crash"}, Nontriv: true, Oracle: what, OracleID: "process-crash"}
 }
@@ -271,10 +272,8 @@ func generateIsolated(s *Stream, seed int64, n int, thorough bool) ([]Case, int,
 					}
 					// an item that burns CPU this long without finishing, or is blocked, is a hang
 					busy := cpuOK && cpu-cpuAtChange > hangTimeout
-					if !cpuOK {
-						busy = time.Since(lastChange) > hangTimeout
-					}
-					if busy || time.Since(lastChange) > blockedTimeout {
+					blocked := time.Since(lastChange) > blockedTimeout && (!cpuOK || cpu-cpuAtChange < 10*time.Second)
+					if busy || blocked || time.Since(lastChange) > absoluteTimeout {
 						hung = true
 						cmd.Process.Kill()
 					}
